@@ -618,13 +618,11 @@ func (a *effAnalysis) inlineCallee(callee *ssa.Function, c *ssa.CallCommon) bool
 		if i >= len(c.Args) {
 			break
 		}
-		pt, ok := p.Type().Underlying().(*types.Pointer)
-		if !ok {
+		if _, ok := p.Type().Underlying().(*types.Pointer); !ok {
 			continue
 		}
-		if _, ok := pt.Elem().Underlying().(*types.Struct); !ok {
-			continue
-		}
+		// a pointer to a variable of the caller (a struct that wraps state, a local slice or counter handed to a helper
+		// that updates it in place)
 		objs := a.pts[c.Args[i]]
 		if len(objs) == 0 {
 			continue
@@ -763,6 +761,11 @@ func (e *effEngine) ruleAppendOnly(r *Report, rule string, f *ssa.Function, pnam
 			if b, ok := x.Call.Value.(*ssa.Builtin); ok && b.Name() == "append" {
 				chain[x] = true
 			}
+			// a helper of the module that grows the slice it is handed: every return is its parameter or an append
+			// onto it — dst = openByte(dst, …)
+			if growsParam(e, x) >= 0 {
+				chain[x] = true
+			}
 		}
 	})
 	for changed := true; changed; {
@@ -778,7 +781,11 @@ func (e *effEngine) ruleAppendOnly(r *Report, rule string, f *ssa.Function, pnam
 					}
 				}
 			case *ssa.Call:
-				if !chain[x.Call.Args[0]] {
+				k := 0
+				if gi := growsParam(e, x); gi >= 0 {
+					k = gi
+				}
+				if !chain[x.Call.Args[k]] {
 					delete(chain, v)
 					changed = true
 				}
@@ -788,6 +795,15 @@ func (e *effEngine) ruleAppendOnly(r *Report, rule string, f *ssa.Function, pnam
 	nBad := 0
 	for _, ev := range s.writes[idx] {
 		switch {
+		case strings.HasPrefix(ev.kind, "append via "):
+			// the append made by a growing helper onto its own parameter, which is a value of the chain here
+			if cl, ok := ev.ins.(*ssa.Call); ok {
+				if gi := growsParam(e, cl); gi >= 0 && chain[cl.Call.Args[gi]] && chain[cl] {
+					continue
+				}
+			}
+			nBad++
+			r.violated(rule, where, pname+" append-only", e.c.pos(ev.ins.Pos()), fmt.Sprintf("%s's existing content may be modified here (%s), not only appended to", pname, ev.kind))
 		case ev.kind == "append":
 			cl := ev.ins.(*ssa.Call)
 			if chain[cl.Call.Args[0]] {
@@ -810,4 +826,57 @@ func (e *effEngine) ruleAppendOnly(r *Report, rule string, f *ssa.Function, pnam
 	if nBad == 0 {
 		r.holds(rule, where, pname+" append-only", e.c.pos(f.Pos()), fmt.Sprintf("the only writes through %s are appends onto %s or onto the result of an earlier append (%d write events examined)", pname, pname, len(s.writes[idx])))
 	}
+}
+
+// growsParam: call is a call of a module function one of whose slice parameters is handed back grown or as it is —
+// every return is that parameter, or an append onto a value of the same kind built from it; the parameter's index,
+// or -1.
+func growsParam(e *effEngine, call *ssa.Call) int {
+	g := call.Call.StaticCallee()
+	if g == nil || g.Blocks == nil || !e.c.inModule(g) || g.Signature.Results().Len() != 1 {
+		return -1
+	}
+	for i, p := range g.Params {
+		if _, ok := p.Type().Underlying().(*types.Slice); !ok || !types.Identical(p.Type(), g.Signature.Results().At(0).Type()) || i >= len(call.Call.Args) {
+			continue
+		}
+		in := map[ssa.Value]bool{p: true}
+		for changed := true; changed; {
+			changed = false
+			instrs(g, func(ins ssa.Instruction) {
+				switch x := ins.(type) {
+				case *ssa.Phi:
+					if in[x] || !types.Identical(x.Type(), p.Type()) {
+						return
+					}
+					all := true
+					for _, ed := range x.Edges {
+						if !in[ed] {
+							all = false
+						}
+					}
+					if all {
+						in[x], changed = true, true
+					}
+				case *ssa.Call:
+					if b, ok := x.Call.Value.(*ssa.Builtin); ok && b.Name() == "append" && !in[x] && in[x.Call.Args[0]] {
+						in[x], changed = true, true
+					}
+				}
+			})
+		}
+		ok, n := true, 0
+		instrs(g, func(ins ssa.Instruction) {
+			if rt, isRt := ins.(*ssa.Return); isRt {
+				n++
+				if len(rt.Results) != 1 || !in[rt.Results[0]] {
+					ok = false
+				}
+			}
+		})
+		if ok && n > 0 {
+			return i
+		}
+	}
+	return -1
 }
